@@ -1,0 +1,29 @@
+//go:build verif
+
+package orderedmap
+
+// Comment-only file: machine-checked contracts for /verif (see /verif/DESIGN.md).
+// There is no code in this file; the build tag keeps it out of every normal build.
+//
+// View of a map m: the sequence of pairs (m.order[i], m.records[m.order[i]]), 0 <= i < len(m.order).
+//
+//@ spec wf(m) = m != nil && m.records != nil
+//@     && (forall i: int :: 0 <= i && i < len(m.order) ==> m.records.has(m.order[i]))
+//@     && (forall k: K :: m.records.has(k) ==> (exists i: int @pos :: 0 <= i && i < len(m.order) && m.order[i] == k))
+//@     && (forall i, j: int :: 0 <= i && i < j && j < len(m.order) ==> m.order[i] != m.order[j])
+//
+//@ func (*Map).Remove
+//@   property C19 C04
+//@   requires wf(orderedMap)
+//@   ghost    p := ite(orderedMap.records.has(key), skolem("pos", "pre", key), -1)
+//@   ensures  wf: wf(orderedMap) witness pos := skolem("pos", "pre", k) - b2i(p >= 0 && skolem("pos", "pre", k) > p)
+//@   ensures  has: forall k: K :: orderedMap.records.has(k) == (old(orderedMap.records.has(k)) && k != key)
+//@   ensures  values: forall k: K :: k != key ==> orderedMap.records[k] == old(orderedMap.records[k])
+//@   ensures  len: len(orderedMap.order) == old(len(orderedMap.order)) - b2i(p >= 0)
+//@   ensures  order: forall j: int :: 0 <= j && j < len(orderedMap.order) ==> orderedMap.order[j] == old(orderedMap.order[j + b2i(p >= 0 && j >= p)])
+//@   loop 0:
+//@     invariant sep: fresh(newOrder)
+//@     invariant frame: forall j: int :: 0 <= j && j < old(len(orderedMap.order)) ==> orderedMap.order[j] == old(orderedMap.order[j])
+//@     invariant bounds: len(newOrder) == ($i + 1) - b2i(0 <= p && p <= $i)
+//@     invariant prefix: forall j: int :: 0 <= j && j < len(newOrder) && (p < 0 || j < p) ==> newOrder[j] == old(orderedMap.order[j])
+//@     invariant suffix: forall j: int :: 0 <= p && p <= j && j < len(newOrder) ==> newOrder[j] == old(orderedMap.order[j + 1])
